@@ -61,17 +61,31 @@ Fixpoint enc_fields (mo : list (string * string) -> list (string * string))
   | _, _ => []
   end.
 
-Definition dec_field (kv : list (string * json)) (n : string) (ft : ty) : res val :=
+Definition dec_field (ns : list string) (kv : list (string * json)) (n : string) (ft : ty) : res val :=
+  match ft with
+  | TSkip => Ok VUnit
+  | _ => match lookup_f ns n kv with None => Ok (zero ft) | Some x => dec ft x end
+  end.
+
+Fixpoint dec_fields (ns : list string) (kv : list (string * json)) (fs : list field) : res (list val) :=
+  match fs with
+  | [] => Ok []
+  | Field _ n _ ft :: fr =>
+      rbind (dec_field ns kv n ft) (fun v => rbind (dec_fields ns kv fr) (fun vs => Ok (v :: vs)))
+  end.
+
+(* the same with exact-case key lookup (what the decoder does on the library's own output) *)
+Definition dec_field_x (kv : list (string * json)) (n : string) (ft : ty) : res val :=
   match ft with
   | TSkip => Ok VUnit
   | _ => match lookup n kv with None => Ok (zero ft) | Some x => dec ft x end
   end.
 
-Fixpoint dec_fields (kv : list (string * json)) (fs : list field) : res (list val) :=
+Fixpoint dec_fields_x (kv : list (string * json)) (fs : list field) : res (list val) :=
   match fs with
   | [] => Ok []
   | Field _ n _ ft :: fr =>
-      rbind (dec_field kv n ft) (fun v => rbind (dec_fields kv fr) (fun vs => Ok (v :: vs)))
+      rbind (dec_field_x kv n ft) (fun v => rbind (dec_fields_x kv fr) (fun vs => Ok (v :: vs)))
   end.
 
 Fixpoint wf_fields (fs : list field) (vs : list val) : bool :=
@@ -99,16 +113,51 @@ Proof.
     simpl. destruct ft; try (rewrite IH; reflexivity); destruct (om && is_empty x); rewrite IH; reflexivity.
 Qed.
 
-Lemma dec_struct : forall fs kv, dec (TStruct fs) (JObj kv) = rmap VStruct (dec_fields kv fs).
+Lemma dec_struct_gen : forall ns fs kv,
+  rmap VStruct
+    ((fix go (fs : list field) : res (list val) :=
+        match fs with
+        | [] => Ok []
+        | Field _ n _ ft :: fr =>
+            rbind (match ft with
+                   | TSkip => Ok VUnit
+                   | _ => match lookup_f ns n kv with
+                          | None => Ok (zero ft)
+                          | Some x => dec ft x
+                          end
+                   end)
+                  (fun v => rbind (go fr) (fun vs => Ok (v :: vs)))
+        end) fs) = rmap VStruct (dec_fields ns kv fs).
 Proof.
-  intros fs kv. induction fs as [|[g n om ft] fr IH].
-  - reflexivity.
-  - simpl in IH. simpl.
-    unfold rmap in *.
-    assert (E : forall (a b : res (list val)),
-               rbind a (fun a0 => Ok (VStruct a0)) = rbind b (fun a0 => Ok (VStruct a0)) -> a = b).
-    { intros a b. destruct a, b; simpl; congruence. }
-    apply E in IH. rewrite IH. unfold dec_field. destruct ft; reflexivity.
+  intros ns fs kv. f_equal. induction fs as [|[g n om ft] fr IH]; [reflexivity|].
+  cbn [dec_fields]. rewrite <- IH. unfold dec_field. destruct ft; reflexivity.
+Qed.
+
+Lemma dec_struct : forall fs kv, dec (TStruct fs) (JObj kv) = rmap VStruct (dec_fields (names fs) kv fs).
+Proof. intros fs kv. cbn [dec]. apply dec_struct_gen. Qed.
+
+(* on objects whose keys are all (exactly) field names, folding lookup = exact lookup *)
+Lemma resolve_exact : forall ns k, In k ns -> resolve ns k = Some k.
+Proof.
+  intros ns k H. unfold resolve.
+  assert (existsb (String.eqb k) ns = true) as ->; [|reflexivity].
+  apply existsb_exists. exists k. split; [exact H|apply String.eqb_eq; reflexivity].
+Qed.
+
+Lemma lookup_f_exact : forall ns n kv, (forall k, In k (keys kv) -> In k ns) ->
+  lookup_f ns n kv = lookup n kv.
+Proof.
+  intros ns n kv. induction kv as [|[k j] r IH]; intros H; [reflexivity|].
+  cbn [lookup_f lookup]. rewrite IH by (intros k' Hk'; apply H; right; exact Hk').
+  rewrite (resolve_exact ns k) by (apply H; left; reflexivity). reflexivity.
+Qed.
+
+Lemma dec_fields_exact : forall ns kv fs, (forall k, In k (keys kv) -> In k ns) ->
+  dec_fields ns kv fs = dec_fields_x kv fs.
+Proof.
+  intros ns kv fs H. induction fs as [|[g n om ft] fr IH]; [reflexivity|].
+  cbn [dec_fields dec_fields_x]. rewrite IH. unfold dec_field, dec_field_x.
+  rewrite (lookup_f_exact ns n kv H). reflexivity.
 Qed.
 
 Lemma wf_struct_eq : forall fs vs, wf (TStruct fs) (VStruct vs) = wf_fields fs vs.
